@@ -30,6 +30,11 @@ written in plain Python (``math`` only, no biogeme import).
         rest for 2..4 (thorough: 5) alternatives x two labelings x nest-parameter kinds (number,
         free / fixed Beta, expression) x ``parameters=`` (none, all, partial) x mu x names (none,
         in choice-set order, in another order); entries are looked up by label.
+        Listing orders: every structure additionally in EVERY order of writing it down - all
+        permutations of the tuple of nests x all permutations of the member list of every nest
+        (the choice set itself is unsorted in the second labeling) - x labelings x all
+        nest-parameter kinds, the remaining options rotating.  The statement does not depend on
+        the order in which a nest lists its alternatives, nor on the order of the nests.
 """
 from __future__ import annotations
 
@@ -1011,6 +1016,29 @@ def nest_structures(J):
 NEST_KINDS = ['float', 'free', 'fixed', 'expr']
 
 
+def nest_listings(nests):
+    """Every way of writing down one nest structure other than the canonical one: all permutations of the tuple
+    of nests x all permutations of the member list of each nest (canonical = blocks by smallest member, members
+    ascending in choice-set position, as produced by set_partitions)."""
+    canonical = [list(m) for m in nests]
+    out = []
+    for order in itertools.permutations(range(len(nests))):
+        for members in itertools.product(*[itertools.permutations(nests[i]) for i in order]):
+            v = [list(m) for m in members]
+            if v != canonical:
+                out.append(v)
+    return out
+
+
+def nest_listing_class(nests_pos):
+    """'choice-set-order' | 'nests-reordered' (only the tuple of nests is in another order) | 'members-reordered'
+    (some nest lists its alternatives in another order than the choice set)."""
+    if any(list(m) != sorted(m) for m in nests_pos):
+        return 'members-reordered'
+    firsts = [min(m) for m in nests_pos]
+    return 'choice-set-order' if firsts == sorted(firsts) else 'nests-reordered'
+
+
 def nest_configs(a, tier):
     cfgs = []
     idx = 0
@@ -1034,6 +1062,33 @@ def nest_configs(a, tier):
                                                  assign=assign, pdict=pd_, mu=mu, names=names,
                                                  syntax=['object', 'tuple'][idx % 2]))
                             idx += 1
+    # ---- listing orders: every non-canonical way of writing each structure down
+    combos9 = [(m, n) for m in ('default', 'one', 'top') for n in ('none', 'ordered', 'permuted')]
+    idx = 0
+    for J in ((2, 3, 4) if tier == 'quick' else (2, 3, 4, 5)):
+        labelings = [list(range(1, J + 1)), [l for l in a['labels'] if l in sorted(a['labels'])[:J]]]
+        if labelings[1] == labelings[0]:
+            labelings = labelings[:1]
+        for st in nest_structures(J):
+            for listing in nest_listings(st['nests']):
+                for labels in labelings:
+                    for ki, kind in enumerate(NEST_KINDS):
+                        pdicts = ['none'] if kind == 'float' else ['none', 'override', 'partial']
+                        assigns = ['distinct', 'equal'] if len(listing) >= 2 else ['distinct']
+                        # the options that are not enumerated in full rotate with a counter that is independent
+                        # of the kind (idx advances once per (listing, labeling))
+                        if tier == 'quick' or J == 5:
+                            variants = [(assigns[(idx + ki) % len(assigns)], pdicts[(idx + ki) % len(pdicts)],
+                                         combos9[(2 * idx + ki + 4 * k) % 9])
+                                        for k in ((0, 1) if tier == 'quick' else (0, 1, 2))]
+                        else:
+                            variants = [(as_, pd_, combos9[(idx + ki + 3 * k) % 9]) for as_ in assigns for pd_ in pdicts
+                                        for k in (0, 1, 2)]
+                        for assign, pd_, (mu, names) in variants:
+                            cfgs.append(dict(J=J, labels=labels, alone=st['alone'], nests=listing, kind=kind,
+                                             assign=assign, pdict=pd_, mu=mu, names=names,
+                                             syntax=['object', 'tuple'][(idx // 2 + ki) % 2]))
+                    idx += 1
     return cfgs
 
 
@@ -1101,6 +1156,8 @@ def check_nest(cfg, rec: Rec, a=None):
     for i, members in enumerate(nests_pos):
         for j in members:
             nest_of[labels[j]] = i
+    listing = nest_listing_class(nests_pos)
+    listing_tag = '' if listing == 'choice-set-order' else f',listing={listing}'
     ok_labels = sorted(map(str, corr.index)) == sorted(name_of.values()) and list(corr.index) == list(corr.columns)
     rec.case(('nest-labels', str(cfg)), list(map(str, corr.index)), outcome='nest:labels')
     if not ok_labels:
@@ -1118,11 +1175,12 @@ def check_nest(cfg, rec: Rec, a=None):
             e, clause = 1.0 - (top * top) / (m * m), 'within-nest'
         else:
             e, clause = 0.0, 'across-nests' if (x in nest_of and y in nest_of) else 'alone'
-        rec.case(('nest', str(cfg), x, y) if clause == 'within-nest' else None, (x, y, g), outcome=f'nest:{clause}')
+        rec.case(('nest', str(cfg), x, y) if clause == 'within-nest' else None, (x, y, g),
+                 outcome=f'nest:{clause}' + (':' + listing if listing != 'choice-set-order' else ''))
         if cfg.get('sample') and not rec.samples and clause == 'within-nest':
             rec.sample(dict(helper='NestsForNestedLogit.correlation', cfg=cfg, pair=[x, y], value=g, expected=e))
         if not (close(g, e) and close(g2, e)):
-            rec.violation(f'C17|nested-correlation|{clause},names={cfg["names"]}',
+            rec.violation(f'C17|nested-correlation|{clause},names={cfg["names"]}{listing_tag}',
                           f'correlation of alternatives {x},{y} (looked up by label {name_of[x]!r},{name_of[y]!r}) = {g} / {g2}; '
                           f'expected {e} for nests {[[labels[j] for j in m_] for m_ in nests_pos]} with mu_m {mu_m}, mu {top}; cfg {cfg}',
                           case_of(pair=[x, y]), expected=e, observed=[g, g2])
